@@ -288,7 +288,11 @@ class Gen:
             if ptag.startswith("prop"):
                 args.append(self.prop(env, depth - 1))
             else:
-                args.append(self.schema(env, ptag, depth - 1))
+                a = self.schema(env, ptag, depth - 1)
+                if a[0] != "ann" and a[0] in ("prim", "obj", "arr") and self.rng.random() < 0.5 and self.rich_ann:
+                    # an argument that brings its own schema-level annotations
+                    a = ["ann", a, {"title": self.fresh("T"), "description": self.fresh("D")}]
+                args.append(a)
         return ["app", self.varref(fname), args]
 
     def prop(self, env, depth, prim_only=False):
@@ -374,6 +378,21 @@ class Gen:
                 return self.schema(env, None, depth)       # a bare schema as range
             return self.content(env, depth)
         self.feat("ranges")
+        if r.random() < 0.25:
+            # several contents for one status, told apart by their media types
+            self.feat("same-status-media")
+            st = r.choice(["200", "404", "4XX"])
+            medias = r.sample(["application/json", "text/plain", "application/vnd.x+json", "application/xml"], n)
+            out = []
+            for md in medias:
+                metas = [("status", ["lit", st]), ("media", ["lit", '"%s"' % md])]
+                if r.random() < 0.4:
+                    metas.append(("headers", ["obj", [self.prop(env, 0, prim_only=True)]]))
+                c = ["content", metas, self.schema(env, None, depth)]
+                if r.random() < 0.4 and self.rich_ann:
+                    c = ["ann", c, {"description": self.fresh("D")}]
+                out.append(c)
+            return ["op", "::", out]
         sts = r.sample(["200", "201", "404", "4XX", "5XX", "500", "204"], n)
         return ["op", "::", [self.content(env, depth, status=s) for s in sts]]
 
@@ -464,7 +483,13 @@ class Gen:
                 elif rt == "arr":
                     body = ["arr", ["var", params[0]]] if np_ == 1 else ["arr", ["op", "~", [["var", p] for p in params]]]
                 else:
-                    props = [["prop", self.fresh("k"), r.choice(["", "!"]), ["var", p]] for p in params]
+                    props = []
+                    for p in params:
+                        use = ["var", p]
+                        if r.random() < 0.6 and self.rich_ann:
+                            self.feat("ann-on-parameter-use")
+                            use = ["ann", use, {"title": self.fresh("T")} if r.random() < 0.6 else {"description": self.fresh("D")}]
+                        props.append(["prop", self.fresh("k"), r.choice(["", "!"]), use])
                     props.append(self.prop(env2, 0))
                     body = ["obj", props]
                     objp = [p for p, t in zip(params, ptags) if t == "obj"]
